@@ -297,7 +297,7 @@ PROPS['C17'] = dict(
 
 PROPS['C18'] = dict(
     lean=['QscProofs.C16', 'QscProofs.C20Spec', 'QscProofs.C20Interp'], theorems=['C16.even_nphi_promoted', 'C20Spec.D_exact_sin', 'C20Spec.D_exact_cos', 'C20Interp.interp_exact_sin', 'C20Interp.interp_exact_cos'],
-    gen=['Axis', 'R1d', 'R2', 'Mercier'], corr=corr_merge(corr_generated(['Axis', 'R1d', 'Mercier'], orders=('r2',)), corr_hand_kernels(['specdiff', 'dof'])), oracle=oracle_multi(oracles.oracle_C18),
+    gen=['Axis', 'R1d', 'R2', 'Mercier'], corr=corr_merge(corr_generated(['Axis', 'R1d', 'Mercier'], orders=('r2',)), corr_hand_kernels(['specdiff', 'dof', 'fmin', 'interp'])), oracle=oracle_multi(oracles.oracle_C18),
     rule=RULE + '; each case rebuilt with nphi - 1 (even) and on the ladder 31, 63, 127',
     partial=['the quantitative convergence statements (1e-8 once resolved; second order for grid extrema and the trapezoid angle) are analysis: decided numerically on a resolution ladder and labelled as such (level "other" for that clause); proved: the promotion of even nphi and the exactness of the differentiation matrix and of the interpolant on every resolvable mode, which is the structural reason for spectral convergence'])
 
